@@ -69,11 +69,14 @@ MuxId(id) == id \in {1, 2, 3, VPS, WSS625, CC625F1, 24}     \* 1, 2: Teletext B 
 CanonId(id) == IF id \in {1, 2, 3} THEN TTX ELSE IF id = 24 THEN CC625F1 ELSE id
 
 (* ---- transmitter: one sliced line -> one data unit (EN 301 775 4.5 - 4.8) ---- *)
+(* a Teletext line whose number is undefined (line 0) still has a field: a line record with a field `f2` is an undefined line
+   of the second field (line_offset 0, field_parity 0: lofp 0xC0), without it of the first field (0xE0) *)
+LofpL(l) == IF l.line = 0 /\ "f2" \in DOMAIN l THEN 192 ELSE Lofp(l.line)
 Ff(n) == [i \in 1..n |-> 255]
 Or3(b) == b - (b % 4) + 3
 EncBody(l) ==
   LET id == CanonId(l.id) IN
-  IF id = TTX THEN <<DuTtx, 2 + TtxN, Lofp(l.line), 228>> \o [i \in 1..TtxN |-> Rev8(l.data[i])]
+  IF id = TTX THEN <<DuTtx, 2 + TtxN, LofpL(l), 228>> \o [i \in 1..TtxN |-> Rev8(l.data[i])]
   ELSE IF id = VPS THEN <<DuVps, 1 + VpsN, Lofp(l.line)>> \o [i \in 1..VpsN |-> l.data[i]]
   ELSE IF id = WSS625 THEN <<DuWss, 3, Lofp(l.line), Rev8(l.data[1]), Or3(Rev8(l.data[2]))>>
   ELSE <<DuCc, 3, Lofp(l.line), Rev8(l.data[1]), Rev8(l.data[2])>>
